@@ -575,3 +575,14 @@ func vShares(a, b interface{}) bool {
 	walk(a, true)
 	return walk(b, false)
 }
+
+// vTempFile: a scratch file name (a real temporary file natively, an in-memory file under the engine).
+func vTempFile(tag string) string {
+	f, err := os.CreateTemp("", "verif-"+tag+"-*")
+	if err != nil {
+		panic(err)
+	}
+	name := f.Name()
+	f.Close()
+	return name
+}
